@@ -63,6 +63,7 @@ type Process struct {
 	command             command.Commander
 	started             bool
 	done                bool
+	awaitingDeps        atomic.Bool
 	timeMutex           sync.Mutex
 	startTime           time.Time
 	liveProber          *health.Prober
@@ -412,8 +413,10 @@ func (p *Process) stopProcess(cancelReadinessFuncs bool) error {
 	}
 	if !p.isRunning() {
 		log.Debug().Msgf("process %s is in state %s not shutting down", p.getName(), p.getStatusName())
-		// prevent pending process from running
-		if p.isOneOfStates(types.ProcessStatePending) {
+		// prevent pending process from running. An instance created by a manual start or
+		// restart waits for its dependencies under whatever state the previous instance
+		// left behind, not necessarily Pending
+		if p.isOneOfStates(types.ProcessStatePending) || p.awaitingDeps.Load() {
 			p.onProcessEnd(types.ProcessStateTerminating)
 		}
 		return nil
